@@ -314,6 +314,19 @@ def insertByKey (kv : Str × Coef) : Dict → Dict
 /-- `_init_stoich` on a plain dict: `OrderedDict(sorted(container.items(), key=lambda kv: kv[0]))` -/
 def sortDict (d : Dict) : Dict := d.foldr insertByKey []
 
+/-- what the caller hands to the constructor for a stoichiometry: a plain `dict`, an `OrderedDict`, or a `set` of keys -/
+inductive ContainerKind
+  | dict | ordered | set
+  deriving DecidableEq, Repr
+
+/-- `Reaction._init_stoich(container)`: a `set` becomes `{k: 1}`; a container whose type is exactly `dict` is rebuilt as an
+    `OrderedDict` sorted by key; anything else (an `OrderedDict`) is kept as it is, in its own order -/
+def initStoich (kind : ContainerKind) (items : Dict) : Dict :=
+  match kind with
+  | .set => sortDict (items.map fun kv => (kv.1, Coef.ofNat 1))
+  | .dict => sortDict items
+  | .ordered => items
+
 structure Reaction where
   reac : Dict
   prod : Dict
@@ -353,7 +366,23 @@ def Reaction.check (r : Reaction) : Except Err Reaction :=
 
 /-- `Cls(act[0], act[1], param, inact_reac=…, inact_prod=…)` with plain dicts: sorted by key, default checks -/
 def mkReaction (raw : RawReaction) : Except Err Reaction :=
-  Reaction.check ⟨sortDict raw.reac, sortDict raw.prod, sortDict raw.inactReac, sortDict raw.inactProd, raw.paramText, none⟩
+  Reaction.check ⟨initStoich .dict raw.reac, initStoich .dict raw.prod, initStoich .dict raw.inactReac,
+    initStoich .dict raw.inactProd, raw.paramText, none⟩
+
+/-- `Cls(reac, prod, param, inact_reac=…, inact_prod=…, name=…, checks=())` for containers of the given kinds -/
+def Reaction.construct (kr kp kir kip : ContainerKind) (reac prod inactReac inactProd : Dict) (param name : Option Str) :
+    Reaction :=
+  ⟨initStoich kr reac, initStoich kp prod, initStoich kir inactReac, initStoich kip inactProd, param, name⟩
+
+/-- `d[new] = d.pop(old)` on an OrderedDict (an in-place edit after construction): the entry is removed and its value is
+    stored under `new` — at the end when `new` is a new key; nothing happens when `old` is absent (the model of KeyError
+    is left to the caller) -/
+def dictRename (d : Dict) (old new : Str) : Dict :=
+  match dictGet d old with
+  | none => d
+  | some v =>
+    let d' := d.filter (fun kv => kv.1 != old)
+    if d'.any (fun kv => kv.1 == new) then d'.map (fun kv => if kv.1 == new then (kv.1, v) else kv) else d' ++ [(new, v)]
 
 /-- `Reaction.from_string(line, substance_keys, globals_=False)` / `Equilibrium.from_string` (token by class) -/
 def toReaction (allowed : Allowed) (token : Str) (line : Str) : Except Err Reaction :=
@@ -374,8 +403,14 @@ def Reaction.eq (a b : Reaction) : Bool :=
   dictEq a.reac b.reac && dictEq a.prod b.prod && a.param == b.param && dictEq a.inactReac b.inactReac
     && dictEq a.inactProd b.inactProd
 
-/-- `copy()`: shallow copies of every attribute, `checks=()`; the containers are OrderedDicts and are kept as they are -/
-def Reaction.copy (r : Reaction) : Reaction := ⟨r.reac, r.prod, r.inactReac, r.inactProd, r.param, r.name⟩
+/-- `copy()`: `copy.copy` of every attribute handed to the constructor with `checks=()`.  The attributes are OrderedDicts
+    (whatever the caller gave originally), `copy.copy` keeps that type, so `_init_stoich` keeps their order. -/
+def Reaction.copy (r : Reaction) : Reaction :=
+  Reaction.construct .ordered .ordered .ordered .ordered r.reac r.prod r.inactReac r.inactProd r.param r.name
+
+/-- what `copy` would be if it handed plain `dict`s to the constructor (`dict(v)` instead of `copy.copy(v)`) -/
+def Reaction.copyThroughDict (r : Reaction) : Reaction :=
+  Reaction.construct .dict .dict .dict .dict r.reac r.prod r.inactReac r.inactProd r.param r.name
 
 /-! ### `StrPrinter` -/
 
